@@ -21,7 +21,8 @@ RULE = ("the 29 (start state, call) cases of C13 (incl. validated / stream store
         "opens a FRESH instance. Oracle: every bystander's pid ref, retrieve bytes, membership exactly once in its "
         "own cid list and metadata documents as before; the interrupted pid is retrievable with complete correct "
         "bytes or reported not-found/inconsistent; delete_object(pid) succeeds or says unknown; store_object(pid, "
-        "data) (same and different content) then succeeds and is retrievable; afterwards LATER calls on every bystander "
+        "data) (same and different content) then succeeds and is retrievable, and so does a SECOND delete / store round "
+        "(leftovers of the crash must not wedge the pid later either); afterwards LATER calls on every bystander "
         "(store_metadata, delete_metadata(all), retrieve_object, delete_object) must complete. distinct_nontrivial = distinct "
         "(case, crash point, recovery content) runs in which the child really died at the point.")
 ASSUMPTIONS = ["crash = process death with the page cache intact (no power loss / fsync ordering)",
@@ -30,7 +31,7 @@ EXHAUSTIVE = {"quick": True, "thorough": True}
 SYMPTOMS = {"bystander-changed", "interrupted-pid-served-wrong-bytes", "interrupted-pid-served-other-content",
             "interrupted-pid-unexpected-error", "recovery-delete-failed", "recovery-store-failed",
             "recovery-store-not-retrievable", "bystander-changed-by-recovery", "recovery-store-metadata-failed",
-            "bystander-later-call-failed"}
+            "bystander-later-call-failed", "second-recovery-round-failed"}
 WATCHDOG_S = 3600
 
 
